@@ -69,7 +69,10 @@ def plant(seed, alpha, la, sub, nindel, maxindel, overhang):
 @st.composite
 def cases(draw, tier):
     kind = draw(st.sampled_from(["dna", "protein"]))
-    alpha = gen.NUC if kind == "dna" else gen.AA
+    # mostly the plain letters; sometimes with the wildcard / ambiguity codes at a frequency at which their scores decide
+    # alignments (X, U -> X, B, Z; N)
+    alpha = draw(st.sampled_from([gen.NUC, gen.NUC, gen.NUC, gen.NUC + "N", gen.NUC + "NN"] if kind == "dna" else
+                                 [gen.AA, gen.AA, gen.AA, gen.AA_X, gen.AA + "XXXXX", gen.AA + "XXUUBZ"]))
     mode = draw(st.sampled_from(["tiny", "planted", "planted", "planted", "long", "overlap"]))
     if mode == "overlap":
         # suffix-prefix overlap: a short shared core, long overhangs on opposite ends (either sequence may be the longer one)
